@@ -587,7 +587,11 @@ class Monitor:
 
 # --------------------------------------------------------------------------- E2
 
-def run_e2(spec, monitor_factory, path):
+class _PrefixDone(Exception):
+    pass
+
+
+def run_e2(spec, monitor_factory, path, prefix_ok=False):
     '''Replay a choice list through the REAL System.simulate().  Returns the final
     digest (hex).  Violations propagate as mc.Violation; a path that does not fit
     the run is a HarnessError.'''
@@ -600,6 +604,8 @@ def run_e2(spec, monitor_factory, path):
         try:
             label = next(it)
         except StopIteration:
+            if prefix_ok:
+                raise _PrefixDone()
             raise HarnessError('replay: run wants more steps than the recorded path has')
         state['n'] += 1
         try:
@@ -614,7 +620,10 @@ def run_e2(spec, monitor_factory, path):
     w.env.step = shim
     try:
         with _Quiet():
-            w.system.simulate(w.horizon, print_summary=False)
+            try:
+                w.system.simulate(w.horizon, print_summary=False)
+            except _PrefixDone:
+                return None
             rest = list(it)
             if rest:
                 raise HarnessError(f'replay: {len(rest)} recorded steps left after the run ended')
